@@ -345,6 +345,10 @@ func (s *spaceService) spacePullWithPeer(ctx context.Context, p peer.Peer, id st
 		err = rpcerr.Unwrap(err)
 		return
 	}
+	if res.Payload == nil {
+		// a response without the space payload
+		return nil, spacesyncproto.ErrUnexpected
+	}
 
 	st, err = s.createSpaceStorage(ctx, spacestorage.SpaceStorageCreatePayload{
 		AclWithId: &consensusproto.RawRecordWithId{
